@@ -198,6 +198,16 @@ def prove(ctx, prop_mods):
         ctx.discharged = [n for n in all_names if n in axioms and n not in bad_ax] if not forb else []
         ctx.log("audit FAILED:", ctx.broken_theorems[:10], out[-2000:] if rc != 0 else "")
         return False
+    # thorough: the toolchain's independent re-checker replays the compiled theorem modules
+    if ctx.tier == "thorough":
+        for pm in prop_mods:
+            rc2, out2 = run(["lake", "env", "leanchecker", pm], cwd=LEAN, timeout=3600)
+            ctx.notes.append(f"leanchecker {pm}: rc={rc2}")
+            if rc2 != 0:
+                ctx.broken_theorems = [f"leanchecker rejected {pm}: {out2[-400:]}"]
+                ctx.discharged = []
+                ctx.log("leanchecker FAILED", pm, out2[-600:])
+                return False
     ctx.discharged = list(all_names)
     return True
 
